@@ -1,7 +1,7 @@
 (** * C05: concrete dependencies — nested [::entrait::entrait(unimock = false, mockall = false)] exactly once,
       the implementation is for the concrete type, without an [EntraitT] parameter *)
 From Coq Require Import List String Ascii Bool Arith Lia.
-From Entrait Require Import Tok Syn Opts Split FnParams Convert Codegen Expand Proj Proj2 Proj3.
+From Entrait Require Import Tok Syn Opts Split FnParams Convert Codegen Expand Proj Proj2 Proj3 ProjSide.
 From Entrait.Proofs Require Import Base Shapes.
 Import ListNotations.
 Local Open Scope string_scope.
@@ -70,9 +70,6 @@ Proof.
   - cbn in H. injection H as <- <-. cbn. auto.
 Qed.
 
-Definition first_ty (s : sig) : fty :=
-  match p_items (s_inputs s) with ArgTyped _ _ t :: _ => t | _ => TyOther [] end.
-
 (** [analyze_fn_deps] against [deps_kind] *)
 Lemma analyze_deps_kind tg s o d tg' :
   analyze_fn_deps tg s o = Ok (d, tg') ->
@@ -92,8 +89,6 @@ Lemma deps_kind_merged nd h s : deps_kind nd (merged_sig h s) = deps_kind nd s.
 Proof. reflexivity. Qed.
 
 (** ** trait generics of a function with concrete / [impl] / no dependencies: every non-lifetime parameter *)
-Definition lifted_params (g : generics) : list gparam := filter (fun p => negb (is_life p)) (p_items (g_params g)).
-
 Lemma fold_push_where_params : forall ws tg, tg_params (fold_left tg_push_where ws tg) = tg_params tg.
 Proof. induction ws as [|w ws IH]; intros tg; cbn [fold_left]; [reflexivity|]. rewrite IH. reflexivity. Qed.
 
@@ -219,15 +214,7 @@ Qed.
 (** ** the view *)
 (** the one case the predicate misjudges: the function's own first non-lifetime generic parameter prints
     with a leading [EntraitT] (a type parameter of that name without attributes) *)
-Definition c05_clash (i : input) : bool :=
-  match i with
-  | InFn _ s _ => match lifted_params (s_gen s) with
-                  | p :: _ => is_prefix [TId "EntraitT"] (print_gparam p)
-                  | [] => false
-                  end
-  | _ => false
-  end.
-
+(** [ProjSide.c05_clash] *)
 (** a readable sufficient condition *)
 Lemma no_entrait_t_no_clash h s body :
   forallb (fun p => negb (is_tparam "EntraitT" p)) (p_items (g_params (s_gen s))) = true ->
@@ -286,4 +273,14 @@ Proof.
   destruct (expand_items VEntrait [TId "Foo"] c05_cex_input) as [items| | |] eqn:E; try (vm_compute in E; discriminate E).
   exists items. split; [reflexivity|]. vm_compute in E. injection E as <-.
   intros G. destruct (G eq_refl) as [_ G2]. vm_compute in G2. discriminate G2.
+Qed.
+
+(** the guarded view the checker runs *)
+Lemma good_na : good na.
+Proof. unfold good. cbn. discriminate. Qed.
+
+Lemma c05_view v attr i items :
+  expand_items v attr i = Ok items -> good (view_C05g (mkCtx v attr i) items).
+Proof.
+  intros H. unfold view_C05g. cbn [x_input]. destruct (c05_clash i) eqn:E; [exact good_na | exact (c05_view_partial _ _ _ _ H E)].
 Qed.
